@@ -8,6 +8,9 @@ import Mathlib.Analysis.SpecialFunctions.Sqrt
 import Mathlib.Algebra.Order.Field.Basic
 import Mathlib.Tactic.Linarith
 import Mathlib.Tactic.Ring
+import Mathlib.Algebra.BigOperators.Group.List.Basic
+import Mathlib.Tactic.Positivity
+import Mathlib.Tactic.NormNum
 import Mathlib.Tactic.Module
 import Mathlib.Tactic.FieldSimp
 import Mathlib.Tactic.LinearCombination
@@ -355,7 +358,7 @@ theorem cg_step2 (A : E →ₗ[ℝ] E) (hsym : ∀ u v, ⟪A u, v⟫ = ⟪u, A v
 /-- `forward_backward_pd` on the scalar bilinear problem `min_x ind_{b}(c x)`:
 `f = 0` (prox = id), `h = 0`, `g = ind_{b}` (`prox_{σ g*}(w) = w − σ b`), `L = c·`, `m = 1`. -/
 def fbpdBilinear {K : Type} [Field K] (c b τ σ : K) : FbpdP K K K :=
-  ⟨1, fun _ x => c * x, fun _ y => c * y, id, fun _ => 0, fun _ w => w - σ * b, τ, fun _ => σ⟩
+  ⟨1, fun _ x => c * x, fun _ y => c * y, id, fun _ => 0, fun _ w => w - σ * b, τ, fun _ => σ, none⟩
 
 /-- invariant of the CODED (aliased) step: `σ e² + τ v² − σ τ c e v`, `e = x − x*` -/
 def fbpdQ {K : Type} [Field K] (c τ σ xs : K) (s : FbpdS K K) : K :=
@@ -365,5 +368,43 @@ def fbpdQ {K : Type} [Field K] (c τ σ xs : K) (s : FbpdS K K) : K :=
 `σ e² − 2 σ τ c e v + τ v²`. -/
 def fbpdN {K : Type} [Field K] (c τ σ : K) (e v : K) : K :=
   σ * e ^ 2 - 2 * σ * τ * c * e * v + τ * v ^ 2
+
+
+theorem foldl_add_eq (l : List ℝ) (a : ℝ) : l.foldl (· + ·) a = a + l.sum := by
+  induction l generalizing a with
+  | nil => simp
+  | cons x l ih => simp only [List.foldl_cons, ih, List.sum_cons]; ring
+
+theorem sumK_eq_sum (l : List ℝ) : sumK l = l.sum := by
+  unfold sumK; rw [foldl_add_eq]; simp
+
+theorem natK_eq (n : Nat) : (natK n : ℝ) = n := by
+  induction n with
+  | zero => simp [natK]
+  | succ n ih => simp [natK, ih]
+
+/-- `Σ_i σ_i n_i²` as the code's condition reads it -/
+noncomputable def drCond (sigma norms : List ℝ) : ℝ := sumK (List.zipWith (fun si n => si * (n * n)) sigma norms)
+
+theorem drCond_default (norms : List ℝ) (hpos : ∀ n ∈ norms, 0 < n) (a : ℝ) :
+    drCond (norms.map (fun n => a / (n * n))) norms = norms.length * a := by
+  unfold drCond; rw [sumK_eq_sum]
+  induction norms with
+  | nil => simp
+  | cons x l ih =>
+    have hx : x ≠ 0 := ne_of_gt (hpos x (by simp))
+    simp only [List.map_cons, List.zipWith_cons_cons, List.sum_cons, List.length_cons, Nat.cast_add,
+      Nat.cast_one]
+    rw [ih (fun n hn => hpos n (by simp [hn]))]
+    field_simp; ring
+
+/-- `∇l_i*(v)` when the `l` terms are given, `0` otherwise (`l = None`). -/
+def lcGrad {Y : Type} [AddCommGroup Y] (gl : Option (Nat → Y → Y)) (i : Nat) (v : Y) : Y :=
+  match gl with
+  | some g => g i v
+  | none => 0
+
+/-- sub-differential of `|·|` on `ℝ` -/
+def subAbs (p : ℝ) : Set ℝ := {g | (0 < p → g = 1) ∧ (p < 0 → g = -1) ∧ (p = 0 → |g| ≤ 1)}
 
 end OdlModel.Solvers
